@@ -210,23 +210,48 @@ def run_impl(prop_mod_name, cases, scratch, timeout=1800, asan=False, extra_env=
 # ----------------------------------------------------------------------------------------------
 
 
-def run_model(lines, timeout=1800):
-    """lines: list of request strings (without newline) -> list of parsed s-expressions."""
-    if not lines:
-        return []
-    if not os.path.exists(MODEL_BIN):
-        raise RuntimeError("model binary missing: run ./setup.sh")
-    env = dict(os.environ)
+def _run_model_one(lines, timeout):
     p = subprocess.run(["bash", "-c", f"ulimit -s unlimited 2>/dev/null; exec {MODEL_BIN}"],
                        input="\n".join(lines) + "\n", stdout=subprocess.PIPE, stderr=subprocess.PIPE,
-                       text=True, timeout=timeout, env=env)
+                       text=True, timeout=timeout, env=dict(os.environ))
     out = p.stdout.split("\n")
     if out and out[-1] == "":
         out.pop()
     if len(out) != len(lines):
         raise RuntimeError(f"model returned {len(out)} lines for {len(lines)} requests; rc={p.returncode} "
                            f"stderr={p.stderr[-500:]}")
-    return [parse_sx(o) for o in out]
+    return out
+
+
+def run_model(lines, timeout=1800):
+    """lines: list of request strings (without newline) -> list of parsed s-expressions.
+    Large batches are spread over several model processes."""
+    if not lines:
+        return []
+    if not os.path.exists(MODEL_BIN):
+        raise RuntimeError("model binary missing: run ./setup.sh")
+    total = sum(len(x) for x in lines)
+    k = 1
+    if total > 2_000_000 or len(lines) > 3000:
+        k = min(12, len(lines))
+    if k == 1:
+        return [parse_sx(o) for o in _run_model_one(lines, timeout)]
+    from concurrent.futures import ThreadPoolExecutor
+    # balance by size: biggest first into the lightest bucket
+    order = sorted(range(len(lines)), key=lambda i: -len(lines[i]))
+    buckets = [[] for _ in range(k)]
+    load = [0] * k
+    for i in order:
+        j = load.index(min(load))
+        buckets[j].append(i)
+        load[j] += len(lines[i]) + 200
+    with ThreadPoolExecutor(max_workers=k) as ex:
+        outs = list(ex.map(lambda b: _run_model_one([lines[i] for i in b], timeout) if b else [], buckets))
+    res = [None] * len(lines)
+    for b, o in zip(buckets, outs):
+        for i, v in zip(b, o):
+            res[i] = v
+    return [parse_sx(o) for o in res]
 
 
 # ----------------------------------------------------------------------------------------------
